@@ -454,9 +454,21 @@ func checkReuse(c reuseCase) evid.Outcome {
 	if err := d.Decode(used, c.Uplink1, append([]byte{}, c.B1...)); err != nil {
 		return evid.Outcome{Class: c.Decoder + "/first-rejected"}
 	}
+	// a frame kept by value (receive queue) before its variable decodes the next one
+	var kept lorawan.PHYPayload
+	var keptObs string
+	if p, ok := used.(*lorawan.PHYPayload); ok {
+		kept = *p
+		keptObs = observe(&kept)
+	}
 	fresh := d.New()
 	errFresh := d.Decode(fresh, c.Uplink2, append([]byte{}, c.B2...))
 	errUsed := d.Decode(used, c.Uplink2, append([]byte{}, c.B2...))
+	if keptObs != "" {
+		if after := observe(&kept); after != keptObs {
+			return evid.Fail("lorawan.PHYPayload decoded from %x was kept by value; after the same variable decoded %x (err %v) the kept value reads differently:\n before: %s\n after:  %s", []byte(c.B1), []byte(c.B2), errUsed, keptObs, after)
+		}
+	}
 	if errFresh != nil || errUsed != nil {
 		if (errFresh == nil) != (errUsed == nil) {
 			return evid.Fail("%s: decoding %x into a value that decoded %x before gives err=%v, into a fresh value err=%v", c.Decoder, []byte(c.B2), []byte(c.B1), errUsed, errFresh)
